@@ -26,7 +26,7 @@ ASSUMPTIONS = [
     "allowed differences: STRT/STOP/STEP values, STRT/STOP/STEP and index-curve units, empty value with a unit -> 0",
 ]
 REQUIRED = ["write_read_pairs", "items_compared", "cases_widest_item_has_empty_value", "cases_blank_mnemonic", "cases_duplicate_mnemonic",
-            "version_1.2", "version_2.0", "case_upper", "case_lower", "case_preserve", "other_text_compared"]
+            "version_1.2", "version_2.0", "case_upper", "case_lower", "case_preserve", "other_text_compared", "second_generation_round_trips"]
 SOFT_DEADLINE = {"quick": 90, "thorough": 1500}
 LEVEL_TEXT = ("Exploration: every item of every section is compared after a write->read cycle; the generators rotate which item "
               "determines the section's column widths, since one line's correctness depends on all other items of its section.")
@@ -180,6 +180,17 @@ def value_matches(written, read):
     return isinstance(read, str) and read == t
 
 
+def second_generation_in_domain(spec):
+    """The object read back is itself written and read again only when it is still in the statement's domain: a blank
+    mnemonic whose numeric value now prints with a period ('2' -> 2.0 -> '2.0') is not, nor is a ~Well section
+    in which upper/lower folding turns 'strt'/'step' into a second STRT/STEP."""
+    for s in ("Version", "Well", "Curves", "Parameter"):
+        for it in spec[s]:
+            if it[0].strip() == "":
+                return False
+    return not any(it[0].upper() in ("STRT", "STOP", "STEP", "NULL") for it in spec["Well"])
+
+
 def run_case(case, ctx):
     lasio = ctx.lasio
     spec, version = case["spec"], case["version"]
@@ -248,6 +259,30 @@ def run_case(case, ctx):
                     ctx.violation("item-changed:%s:%s:%s%s" % (name, tagv, fieldset, blank),
                                   "%s item #%d %r (mnemonic_case=%s): %s" % (name, i, [m, u, v, d], mc, "; ".join(problems)),
                                   {"text": text, "version": version, "rotation": rot})
+        # ---- second generation: the object just read (with this mnemonic_case) is written and read again ------------------
+        if second_generation_in_domain(spec):
+            ctx.count("second_generation_round_trips")
+            b2 = io.StringIO()
+            try:
+                first = {name: [(it.original_mnemonic, it.unit, it.value, it.descr) for it in back.sections[name]] for name in ("Version", "Well", "Curves", "Parameter")}
+                back.write(b2, version=version)
+                again = lasio.read(b2.getvalue(), mnemonic_case=mc)
+            except Exception as e:
+                ctx.violation("second-generation-raised:%s" % type(e).__name__, "writing/reading the re-read object (mnemonic_case=%s) raised %r" % (mc, e),
+                              {"text": text, "version": version})
+            else:
+                for name in ("Version", "Well", "Curves", "Parameter"):
+                    got2 = [(it.original_mnemonic, it.unit, it.value, it.descr) for it in again.sections[name]]
+                    w2 = first[name]
+                    same = len(got2) == len(w2) and all(
+                        a[0] == b[0] and (a[1] == b[1] or (name == "Well" and a[0].upper() in ("STRT", "STOP", "STEP")) or (name == "Curves" and i == 0))
+                        and (a[3] == b[3]) and (value_matches(a[2], b[2]) or (name == "Well" and a[0].upper() in ("STRT", "STOP", "STEP")))
+                        for i, (a, b) in enumerate(zip(w2, got2)))
+                    if not same:
+                        k = next((i for i, (a, b) in enumerate(zip(w2, got2)) if a != b and not (isinstance(a[2], float) and a[:2] + a[3:] == b[:2] + b[3:] and value_matches(a[2], b[2]))), min(len(w2), len(got2)))
+                        ctx.violation("second-generation-differs:%s:v%s:%s" % (name, version, mc),
+                                      "%s after read(%s) -> write -> read: %d items, item #%d %r; before: %d items, item #%d %r" % (
+                                          name, mc, len(got2), k, got2[k:k + 1], len(w2), k, w2[k:k + 1]), {"text": text, "second text": b2.getvalue(), "version": version})
         ctx.count("other_text_compared")
         want_other = "\n".join(s.strip() for s in spec["Other"].splitlines())
         if back.other != want_other:
